@@ -807,6 +807,13 @@ pub fn check<P: Property>(p: &P, opt: &Options) -> i32 {
         wall
     ));
 
+    if std::env::var("VERIF_DEBUG").is_ok() {
+        for (index, found) in acc.violating.iter() {
+            for v in &found.violations {
+                out(&format!("  debug run={} {}@{} vectors={:?} :: {}", index, v.class, v.operation, v.vectors, v.message));
+            }
+        }
+    }
     for (k, n) in &acc.viol_kinds {
         out(&format!("  violating runs by kind: {} x{}", k, n));
     }
